@@ -18,8 +18,8 @@ def echo_of(o):
     return json.loads([a for a in o["resp"]["attributes"] if a["key"] == "echo"][0]["value"])
 
 
-def run_into(res, tier, want_tags=None):
-    cp, info = fam_reply.corpus(tier)
+def run_into(res, tier, want_tags=None, features="full"):
+    cp, info = fam_reply.corpus(tier, features)
     ids = get_ids(cp, info)
     cx = fam_basic.CONTEXTS[2]
     cases, exp = [], []
@@ -44,10 +44,13 @@ def run_into(res, tier, want_tags=None):
                     if entry:
                         rm = next(iter(entry.values()))
                         if rm.payload != ("raw",):
-                            if payload == b"":
-                                continue
-                            vals = [model.TYPE_VALUES[t][0] for t in rm.payload]
-                            pl = (vals[0] if len(vals) == 1 else "[" + ",".join(vals) + "]").encode()
+                            covered = route(entry, ok) is not None
+                            if payload == b"" and covered:
+                                continue   # a handler with typed payload parameters needs a decodable payload
+                            if payload == b"pl" or covered:
+                                vals = [model.TYPE_VALUES[t][0] for t in rm.payload]
+                                pl = (vals[0] if len(vals) == 1 else "[" + ",".join(vals) + "]").encode()
+                            # else: uncovered outcome with an undecodable (empty) payload — must still be passed through
                     d = reply_doc(rid, pl, gas, ok, events, data, mr)
                     for op in ("ep", "mt"):
                         cases.append({"prog": pid, "op": op, "kind": "reply", "input": d, "ctx": cx})
@@ -134,7 +137,7 @@ def run_into(res, tier, want_tags=None):
                 bad("payload parameters %s, expected %s" % (got, want), "payload")
         if ec["height"] != cx["height"] or ec["seen"] != cx["storage"].get("probe"):
             bad("handler saw another context", "context")
-    res.parts["reply_cases"] = len(cases)
+    res.parts["reply_cases_" + features] = len(cases)
     if cases:
         res.sample({"reply": cases[40]["input"], "program": cases[40]["prog"], "observation": obs[40]})
 
@@ -142,6 +145,9 @@ def run_into(res, tier, want_tags=None):
 def run(tier):
     res = core.Result("C07", tier)
     run_into(res, tier)
+    # the framework's optional cargo features (cosmwasm_*, stargate) must not change reply routing: the packed tables
+    # are replayed on a build with only the mandatory features on
+    run_into(res, tier, features="min")
     res.cov["rule"] = ("reply corpus (quick: packed tables — success-only, error-only, always, default, success+error via two methods, methods listing two "
                        "names, all declaration orders of a success/error pair; thorough: every valid table of <= 3 methods over handlers in {absent,[h],[g],[h,g]} x "
                        "reply_on in {success,error,always,absent}): every declared id and two undeclared ids x Ok/Err x events {none,2} x data {none,some} x "
